@@ -288,11 +288,40 @@ def canon_output(qc, out, meta):
             "minimum_reached": bool(meta["minimum_reached"]), "bases": bases}
 
 
+def poke_engine_selection():
+    """what a caller trying out another search engine does on *its own* settings object (the attempt is refused)"""
+    from qiskit_addon_cutting.cut_finding.optimization_settings import OptimizationSettings
+    from qiskit_addon_cutting.cut_finding.lo_cuts_optimizer import LOCutsOptimizer
+    from qiskit_addon_cutting.cut_finding.circuit_interface import SimpleGateList
+    st = OptimizationSettings(seed=1)
+    st.set_engine_selection("CutOptimization", "BeamSearch")
+    try:
+        from qiskit_addon_cutting.automated_cut_finding import DeviceConstraints
+        LOCutsOptimizer(SimpleGateList([]), st, DeviceConstraints(2))
+    except Exception:
+        pass
+
+
 def run_real(payload, with_stats=False):
     from qiskit_addon_cutting import find_cuts, DeviceConstraints
+    if payload.get("special") == "engine":
+        try:
+            poke_engine_selection()
+        except Exception:
+            pass
+        return {"ok": "poked"}
     qc = build(payload)
     opt, width = _params(payload)
-    out, meta = find_cuts(qc, opt, DeviceConstraints(width))
+    if payload.get("reuse_constraints"):
+        # a constraints object built for another width and then edited (width sweep), possibly through a shallow copy
+        import copy
+        cons = DeviceConstraints(max(1, width) + 2)
+        if payload["reuse_constraints"] == "copy":
+            cons = copy.copy(cons)
+        cons.qubits_per_subcircuit = width
+    else:
+        cons = DeviceConstraints(width)
+    out, meta = find_cuts(qc, opt, cons)
     return {"ok": canon_output(qc, out, meta)}
 
 
